@@ -99,7 +99,11 @@ func skolemVars(t *Term, out map[string]*Term, seen map[int]bool) {
 	}
 }
 
-// instantiate adds, for every universally quantified hypothesis, its instances at the goal's skolem constants.
+// instantiate adds instances of the universally quantified hypotheses:
+//  (1) at every skolem constant (variables named k.*) of the goal and the other hypotheses;
+//  (2) by array triggers: for a select(A, f(k)) in the body with f(k) = k or X+k, and every ground select(A, t)
+//      elsewhere, the instance k := t - X.
+// Instances of valid hypotheses are valid, so this can only help the solver.
 func instantiate(hyps []*Term, goal *Term) []*Term {
 	cands := map[string]*Term{}
 	skolemVars(goal, cands, map[int]bool{})
@@ -108,20 +112,89 @@ func instantiate(hyps []*Term, goal *Term) []*Term {
 			skolemVars(h, cands, map[int]bool{})
 		}
 	}
-	if len(cands) == 0 {
-		return hyps
+	// ground selects by array
+	ground := map[int][]*Term{} // array term id -> index terms
+	seenG := map[int]bool{}
+	var collect func(t *Term, bound map[string]bool)
+	collect = func(t *Term, bound map[string]bool) {
+		if t.Op == "forall" {
+			return // only ground context
+		}
+		if seenG[t.id] {
+			return
+		}
+		seenG[t.id] = true
+		if t.Op == "select" {
+			ground[t.Args[0].id] = append(ground[t.Args[0].id], t.Args[1])
+		}
+		for _, a := range t.Args {
+			collect(a, bound)
+		}
+	}
+	collect(goal, nil)
+	for _, h := range hyps {
+		collect(h, nil)
 	}
 	out := append([]*Term{}, hyps...)
+	added := map[int]bool{}
 	for _, h := range hyps {
 		if h.Op != "forall" {
 			continue
 		}
-		for _, c := range cands {
+		inst := func(c *Term) {
 			if c.Sort.W != h.P1 {
-				continue
+				return
 			}
-			out = append(out, substVar(h.Args[0], h.Name, c, map[int]*Term{}))
+			t := substVar(h.Args[0], h.Name, c, map[int]*Term{})
+			if !added[t.id] && !t.IsTrue() {
+				added[t.id] = true
+				out = append(out, t)
+			}
 		}
+		for _, c := range cands {
+			inst(c)
+		}
+		// array triggers
+		n := 0
+		memo := map[int]bool{}
+		var trig func(t *Term)
+		seenT := map[int]bool{}
+		trig = func(t *Term) {
+			if seenT[t.id] {
+				return
+			}
+			seenT[t.id] = true
+			if t.Op == "select" && containsVar(t.Args[1], h.Name, memo) && !containsVar(t.Args[0], h.Name, memo) {
+				idx := t.Args[1]
+				var x *Term // idx = x + k  (x may be nil for idx = k)
+				ok := false
+				switch {
+				case idx.Op == "var" && idx.Name == h.Name:
+					ok = true
+				case idx.Op == "bvadd" && idx.Args[0].Op == "var" && idx.Args[0].Name == h.Name && !containsVar(idx.Args[1], h.Name, memo):
+					x, ok = idx.Args[1], true
+				case idx.Op == "bvadd" && idx.Args[1].Op == "var" && idx.Args[1].Name == h.Name && !containsVar(idx.Args[0], h.Name, memo):
+					x, ok = idx.Args[0], true
+				}
+				if ok {
+					for _, g := range ground[t.Args[0].id] {
+						if n >= 40 {
+							break
+						}
+						n++
+						if x == nil {
+							inst(g)
+						} else {
+							inst(Sub(g, x))
+						}
+					}
+				}
+			}
+			for _, a := range t.Args {
+				trig(a)
+			}
+		}
+		trig(h.Args[0])
 	}
 	return out
 }
@@ -210,18 +283,30 @@ func unitPropagate(hyps []*Term) []*Term {
 		changed := false
 		var next []*Term
 		for _, h := range flat {
+			if h.Op == "not" && h.Args[0].Op == "and" {
+				// not(a /\ b) is the clause (not a \/ not b)
+				var ds []*Term
+				for _, a := range h.Args[0].Args {
+					ds = append(ds, Not(a))
+				}
+				h = mk("or", BoolSort, "", 0, 0, 0, ds...)
+			}
 			if h.Op != "or" {
 				next = append(next, h)
 				continue
 			}
 			var keep []*Term
 			sat := false
-			for _, d := range h.Args {
-				if lits[Not(d).id] {
+			for _, d0 := range h.Args {
+				d := simpUnder(d0, lits, 3)
+				if d != d0 {
+					changed = true
+				}
+				if d.IsFalse() || lits[Not(d).id] {
 					changed = true
 					continue
 				}
-				if lits[d.id] {
+				if d.IsTrue() || lits[d.id] {
 					sat = true
 				}
 				keep = append(keep, d)
@@ -301,4 +386,34 @@ func arithLemmas(hyps []*Term, goal *Term) []*Term {
 	}
 	visit(goal)
 	return out
+}
+
+// simpUnder simplifies the propositional structure of t under the asserted literals (depth bounded).
+func simpUnder(t *Term, lits map[int]bool, depth int) *Term {
+	if lits[t.id] {
+		return True
+	}
+	if lits[Not(t).id] {
+		return False
+	}
+	if depth == 0 {
+		return t
+	}
+	switch t.Op {
+	case "and":
+		var as []*Term
+		for _, a := range t.Args {
+			as = append(as, simpUnder(a, lits, depth-1))
+		}
+		return And(as...)
+	case "or":
+		var as []*Term
+		for _, a := range t.Args {
+			as = append(as, simpUnder(a, lits, depth-1))
+		}
+		return Or(as...)
+	case "not":
+		return Not(simpUnder(t.Args[0], lits, depth-1))
+	}
+	return t
 }
